@@ -139,6 +139,12 @@ class MPSBackendImpl:
             else optimat.eye_permutation(self.qubit_count)
         )
 
+        # chain site s holds atom qubit_permutation[s]: the per-atom drives must follow
+        # the same ordering as the interaction matrix
+        self.omega = self.omega[:, self.qubit_permutation]
+        self.delta = self.delta[:, self.qubit_permutation]
+        self.phi = self.phi[:, self.qubit_permutation]
+
         self.hamiltonian_type = pulser_data.hamiltonian_type
         self.time = time.time()
 
@@ -217,7 +223,10 @@ class MPSBackendImpl:
     def init_dark_qubits(self) -> None:
         # has_state_preparation_error
         if self.pulser_data.state_prep_error > 0.0:
-            bad_atoms = self.pulser_data.bad_atoms
+            # same ordering as the permuted interaction matrix
+            bad_atoms = optimat.permute_tuple(
+                tuple(self.pulser_data.bad_atoms), self.qubit_permutation
+            )
             self.well_prepared_qubits_filter = torch.logical_not(torch.tensor(bad_atoms))
         else:
             self.well_prepared_qubits_filter = None
